@@ -20,6 +20,8 @@ func main() {
 		devMain(os.Args[2:])
 	case "run":
 		os.Exit(runMain(os.Args[2:]))
+	case "replay":
+		os.Exit(replayMain(os.Args[2:]))
 	default:
 		fmt.Println("unknown command")
 		os.Exit(2)
